@@ -860,6 +860,12 @@ class Evaluator:
                 r = self.is_none(b)
             elif isinstance(a, Const) and isinstance(b, Const) and isinstance(a.v, bool) and isinstance(b.v, bool):
                 r = a.v is b.v
+            elif isinstance(b, Const) and isinstance(b.v, bool) and isinstance(a, Const):
+                r = False   # a constant that is not a bool is not the object True / False (`0 is False` is false)
+            elif isinstance(a, Const) and isinstance(a.v, bool) and isinstance(b, Const):
+                r = False
+            elif isinstance(b, Const) and isinstance(b.v, bool) and isinstance(a, Sym) and getattr(a, "pytype", None) in (int, str, float, bytes):
+                r = False   # a symbolic value of another plain type
             elif isinstance(a, TypeV) and isinstance(b, TypeV):
                 r = (a.py is b.py) if (a.py is not None and b.py is not None) else (a.name == b.name)
             elif isinstance(a, TypeV) and isinstance(b, Const) and b.v is None:
